@@ -83,8 +83,13 @@ func genLayCase(r *rng.R, id int, base string) *layCase {
 	if pinBrokenExisting {
 		inv = 1
 	}
+	// every 10th case pins two spellings of ONE output file: an absolute path that is not in clean form and a relative one
+	pinAbsUnclean := id%10 == 1
+	if pinAbsUnclean {
+		n = 2
+	}
 	// a GLOBAL relative output:file (-g): resolved per converter against the directory of ITS declaring file
-	if r.Chance(20) && !pinCwd && !pinShared {
+	if r.Chance(20) && !pinCwd && !pinShared && !pinAbsUnclean {
 		lc.Global = []string{"output:file ./gx/out.go"}
 		n = 2 + r.Intn(2)
 	}
@@ -113,7 +118,18 @@ func genLayCase(r *rng.R, id int, base string) *layCase {
 			cv.Pkg, cv.Vars = pkgs[0], false
 			cv.File = fmt.Sprintf("%s/conv%d.go", cv.Pkg, i)
 		}
+		if pinAbsUnclean {
+			kk = 200 + i
+			cv.Pkg, cv.Vars = pkgs[0], false
+			cv.File = fmt.Sprintf("%s/conv%d.go", cv.Pkg, i)
+		}
 		switch k := kk; {
+		case k == 200:
+			cv.Lines = append(cv.Lines, fmt.Sprintf("output:file %s/%s/../absdir/out0.go", lc.root, cv.Pkg))
+			targetDir = "absdir"
+		case k == 201:
+			cv.Lines = append(cv.Lines, "output:file ../absdir/out0.go")
+			targetDir = "absdir"
 		case k == 100:
 			targetDir = cv.Pkg + "/gx"
 		case k < 3: // default
@@ -144,6 +160,9 @@ func genLayCase(r *rng.R, id int, base string) *layCase {
 		}
 		if pinShared {
 			pk = []int{3, 1}[(i+id/10)%2]
+		}
+		if pinAbsUnclean {
+			pk = 5 + 0*i
 		}
 		switch pk {
 		case 3:
@@ -407,6 +426,23 @@ func runC15(e *env) error {
 		for p := range want {
 			if !seen[p] {
 				problems = append(problems, "expected file not created: "+p)
+			}
+		}
+		// every selected converter is in one of the written files (converters that select one file are MERGED, none is dropped)
+		var written strings.Builder
+		for _, p := range o.created {
+			if !o.after[p].Dir {
+				c, _ := os.ReadFile(filepath.Join(lc.root, p))
+				written.Write(c)
+			}
+		}
+		for _, cv := range lc.Convs {
+			decl := "type " + cv.Name + "Impl struct"
+			if cv.Vars {
+				decl = cv.Name + " = func("
+			}
+			if !strings.Contains(written.String(), decl) {
+				problems = append(problems, "converter "+cv.Name+" was selected, the run succeeded, but no written file contains its code")
 			}
 		}
 		if len(o.changed) > 0 || len(o.removed) > 0 {
